@@ -127,6 +127,20 @@ MUTANTS['c17_markers_validated_on_full_tree']['extra'] = [(
   "        log=log,\n        taxonomy_tree=taxonomy_tree,\n        min_markers=config['type_assignment']['min_markers'])",
   "        log=log,\n        taxonomy_tree=(full_tree_for_markers if not config['flatten'] else taxonomy_tree),\n        min_markers=config['type_assignment']['min_markers'])")]
 
+# ---- C20 ------------------------------------------------------------------------------------
+M('c20_embedded_log_raw', 'C20', 'cell_type_mapper/cli/from_specified_markers.py',
+  "        if config['cloud_safe']:\n            output_log = sanitize_paths(output_log)",
+  "        if config['cloud_safe'] and False:\n            output_log = sanitize_paths(output_log)")
+M('c20_log_file_raw', 'C20', 'cell_type_mapper/cli/from_specified_markers.py',
+  "            log.write_log(log_path, cloud_safe=config['cloud_safe'])",
+  "            log.write_log(log_path, cloud_safe=False)")
+M('c20_bracketed_path_message', 'C20', 'cell_type_mapper/file_tracker/file_tracker.py',
+  "                msg = (f\"FILE TRACKER: copied ../{file_path.name} \"\n                       f\"to ../{tmp_path.name}\")",
+  "                msg = (f\"FILE TRACKER: copied [{file_path}] \"\n                       f\"to ../{tmp_path.name}\")")
+M('c20_equals_path_message', 'C20', 'cell_type_mapper/cli/from_specified_markers.py',
+  "    log.info(f\"using ../{precomputed_loc.name} for precomputed_stats\")",
+  "    log.info(f\"using stats={precomputed_loc} for precomputed_stats\")")
+
 
 def run_mutant(name, tier='quick'):
     m = MUTANTS[name]
